@@ -101,6 +101,10 @@ func material(c Case) (*proto.Material, error) {
 		m, err = m.Refresh(c.Seed+1, sim.FIFO)
 	case "derived":
 		m, err = derive(m, c.Index)
+	case "derived-twice":
+		if m, err = derive(m, c.Index); err == nil {
+			m, err = derive(m, c.Index^0x2a)
+		}
 	case "derived-refreshed":
 		if m, err = derive(m, c.Index); err == nil {
 			m, err = m.Refresh(c.Seed+1, sim.FIFO)
@@ -278,14 +282,14 @@ var prop = pbt.Define(pbt.Prop[Case]{Kind: "sign-session", Class: classify, Run:
 func TestFrost(t *testing.T) {
 	rapid.Check(t, func(rt *rapid.T) {
 		scheme := rapid.SampledFrom([]string{proto.SchemeFrost, proto.SchemeFrostTap}).Draw(rt, "scheme")
-		c := genCase(rt, scheme, []string{proto.SignProto(scheme)}, 6, []string{"dealer", "keygen", "refreshed", "derived", "derived-refreshed"})
+		c := genCase(rt, scheme, []string{proto.SignProto(scheme)}, 6, []string{"dealer", "keygen", "refreshed", "derived", "derived-twice", "derived-refreshed"})
 		prop.One(rt, c)
 	})
 }
 
 func TestDoerner(t *testing.T) {
 	rapid.Check(t, func(rt *rapid.T) {
-		c := genCase(rt, proto.SchemeDoerner, []string{proto.DoernerSign}, 2, []string{"keygen", "refreshed", "derived", "derived-refreshed"})
+		c := genCase(rt, proto.SchemeDoerner, []string{proto.DoernerSign}, 2, []string{"keygen", "refreshed", "derived", "derived-twice", "derived-refreshed"})
 		prop.One(rt, c)
 	})
 }
@@ -296,7 +300,7 @@ func TestCMP(t *testing.T) {
 		if evThorough() {
 			maxN = 4
 		}
-		c := genCase(rt, proto.SchemeCMP, []string{proto.CMPSign, proto.CMPPresignOnline, proto.CMPPresignFull}, maxN, []string{"dealer", "dealer", "derived", "refreshed"})
+		c := genCase(rt, proto.SchemeCMP, []string{proto.CMPSign, proto.CMPPresignOnline, proto.CMPPresignFull}, maxN, []string{"dealer", "dealer", "derived", "derived-twice", "refreshed"})
 		if c.KeyKind == "refreshed" && c.N > 3 {
 			c.KeyKind = "dealer"
 		}
